@@ -17,7 +17,7 @@ From Coq Require Import NArith ZArith List Lia.
 Import ListNotations.
 From Mds Require Import Mdiff.Decimal Mdiff.ReaderModel Mdiff.FormatSpec Mdiff.ApplySpec Mdiff.FormatInst
   Mdiff.ReaderNormalProofs Mdiff.ApplyNormalProofs Mdiff.ReaderUnifiedProofs Mdiff.ApplyUnifiedProofs Mdiff.ApplyContextProofs Mdiff.ReaderGitProofs Mdiff.FormatPatchOk
-  Mdiff.FormatRefuted Mdiff.MdiffModel Mdiff.FormatEndToEnd.
+  Mdiff.FormatRefuted Mdiff.MdiffModel Mdiff.MdiffSpec Mdiff.MdiffHistModel Mdiff.FormatEndToEnd Mdiff.FormatEndToEndHist.
 Local Open Scope Z_scope.
 
 (* every number the formatters print is read back by the model of strconv.Atoi *)
@@ -439,3 +439,37 @@ Theorem C14_end_to_end_refuted :
      apply_unified_gen false lhs (split_lines (x_unified pinned None cs)) <> Some rhs).
 Proof. exact e2e_refuted. Qed.
 Print Assumptions C14_end_to_end_refuted.
+
+(* ================================================================ END TO END, EVERY HISTORY
+   After New(lhs, rhs) a caller may call AddContext(n) (any int n) and Unify() in any order, any
+   number of times ([hop], [diff_run]: C13's Mdiff/MdiffHistModel.v).  [history_chunks lhs rhs ops cs]:
+   cs is d.Chunks after the calls ops.  No history panics; whenever the last call was Unify (or
+   there was none), or more generally the resulting chunks do not overlap, all three renderings
+   applied to lhs give rhs and the normal and unified texts read back - normal and context on the
+   code as it stands, unified under the repaired switches. *)
+Theorem C14_history_total : forall (lhs rhs : list line) (ops : list hop),
+  exists cs, history_chunks lhs rhs ops cs.
+Proof. exact history_total. Qed.
+Print Assumptions C14_history_total.
+
+Theorem C14_end_to_end_history :
+  forall (time : Type) (zero_time : time) (time_is_zero : time -> bool)
+         (format_time : time -> bytes) (parse_time : bytes -> option time),
+    (forall t, time_is_zero t = false -> parse_time (format_time t) = Some t) ->
+    (forall t, newline_free (format_time t)) ->
+    (forall t, time_is_zero t = true -> t = zero_time) ->
+  forall (lhs rhs : list line) (ops : list hop) (cs : list (chunk line)) (fi : option (file_info time)),
+    Forall newline_free lhs -> Forall newline_free rhs -> file_fits lhs -> file_fits rhs ->
+    history_chunks lhs rhs ops cs -> ends_unified ops \/ separated 0 cs -> info_ok time fi ->
+    apply_normal lhs (split_lines (normal cs)) = Some rhs /\
+    read_normal (normal cs) = ROk (normal_normalise cs) /\
+    apply_context lhs (split_lines (context time_is_zero format_time fi cs)) = Some rhs /\
+    apply_unified lhs (split_lines (unified time_is_zero format_time repaired fi cs)) = Some rhs /\
+    read_unified time zero_time parse_time repaired (unified time_is_zero format_time repaired fi cs)
+      = ROk (mkPatch (expected_info time fi cs) (unified_normalise cs)).
+Proof. exact e2e_history. Qed.
+Print Assumptions C14_end_to_end_history.
+Example C14_end_to_end_history_ex :
+  exists cs, history_chunks ex_L ex_R [HAdd 1; HAdd 2; HUnify; HAdd 0; HUnify] cs /\
+             ends_unified [HAdd 1; HAdd 2; HUnify; HAdd 0; HUnify] /\ length cs = 1%nat.
+Proof. exact history_ex. Qed.
